@@ -108,7 +108,8 @@ pub struct AbortCase {
     pub with_receipt: Option<u64>,
     /// the first attempt of the exchange loses its connection at this packet position (0 = instead of the acknowledgement,
     /// 1 = instead of the first reply, 99 = instead of the completion, i.e. behind the status information); the abort answers
-    /// the re-sent request on the new connection
+    /// the re-sent request on the new connection. 98 = no fault in the call itself: the terminal dropped the idle connection
+    /// after an earlier read_card, so the call's first write meets a dead connection
     #[serde(default)]
     pub prior_fault: Option<usize>,
     /// a dangling pre-authorisation exists (needed for the dangling-reversal site)
@@ -174,9 +175,25 @@ pub fn check_abort(c: &AbortCase) -> CheckResult {
     };
     // in `cancel`, the dangling reversal is the second PreAuthReversal: not a separate site (same code path as configure's)
     // (a reconnect vets the new connection with its own system-info exchange: the re-sent system info is the third one)
-    let abort_occ = if c.prior_fault.is_some() { occ + if c.site == Kind::SystemInfo { 2 } else { 1 } } else { occ };
+    // prior_fault 98: an earlier read_card completes, the terminal drops the idle connection, and the observed call (whose
+    // first write meets the dead connection) is answered by the abort
+    let idle = c.prior_fault == Some(98);
+    let (abort_occ, need_in_call) = match c.prior_fault {
+        None => (occ, occ + 1),
+        Some(98) => {
+            let shift = if c.site == Kind::SystemInfo || c.site == Kind::ReadCard { 1 } else { 0 };
+            (occ + shift, occ + 1 + if c.site == Kind::SystemInfo { 1 } else { 0 })
+        }
+        Some(_) => {
+            let n = occ + if c.site == Kind::SystemInfo { 2 } else { 1 };
+            (n, n + 1)
+        }
+    };
     sc.plan = vec![PlanEntry { kind: c.site, occ: Some(abort_occ), from_start: false, directive: Directive { outcome: if let Some(rc) = c.with_receipt { Outcome::AbortWithReceipt(c.code, rc) } else if c.after_status { Outcome::AbortAfterStatus(c.code) } else { Outcome::Abort(c.code) }, ..Default::default() } }];
-    if let Some(p) = c.prior_fault {
+    if idle {
+        sc.ops.insert(0, Op::ReadCard);
+        sc.plan.push(PlanEntry { kind: Kind::ReadCard, occ: Some(0), from_start: false, directive: Directive { fault: Some((FaultKind::Close, 99)), ..Default::default() } });
+    } else if let Some(p) = c.prior_fault {
         let chatty = matches!(c.site, Kind::Init | Kind::EndOfDay | Kind::ReadCard | Kind::Reservation | Kind::PartialReversal | Kind::PreAuthReversal);
         let pos = if p == 99 { 1 + if chatty { c.intermediates } else { 0 } + 1 } else { p };
         sc.plan.push(PlanEntry { kind: c.site, occ: Some(occ), from_start: false, directive: Directive { fault: Some((FaultKind::Close, pos)), ..Default::default() } });
@@ -188,7 +205,7 @@ pub fn check_abort(c: &AbortCase) -> CheckResult {
     let call = tr.calls.last().unwrap();
     // the aborted exchange must actually have happened (otherwise the case says nothing)
     let reqs = decoded_requests(&tr.world, call.req_from, call.req_to);
-    if reqs.iter().filter(|r| r.0 == c.site).count() < abort_occ + 1 {
+    if reqs.iter().filter(|r| r.0 == c.site).count() < need_in_call {
         NOT_REACHED.with(|n| n.set(true));
         return Ok(());
     }
@@ -278,7 +295,7 @@ pub fn run(tier: Tier) -> i32 {
                 }
                 // the abort answers a request that was re-sent after the first attempt lost its connection
                 if inter <= 1 {
-                    let mut priors = vec![0usize, 1];
+                    let mut priors = vec![0usize, 1, 98];
                     if status_site {
                         priors.push(99);
                     }
